@@ -106,7 +106,9 @@ def oracle_bounds(vs):
     ref_in = all(dot(cross(vs[i], vs[(i + 1) % n]), (1, 0, 0)) >= 0 for i in range(n))
     zs = [v[2] for v in vs]
     location = "North" if all(z > 0 for z in zs) else ("South" if all(z < 0 for z in zs) else "Equator")
-    res = {"north": north, "south": south, "ref_point_inside": ref_in, "location": location, "pole_dist": min(dn if north != "corner" else 9.0, ds if south != "corner" else 9.0),
+    # ... or exactly in the interior of an edge?
+    ref_on_edge = (1, 0, 0) not in vs and any(on_arc(vs[i], vs[(i + 1) % n], (1, 0, 0)) for i in range(n))
+    res = {"north": north, "south": south, "ref_point_inside": ref_in, "location": location, "ref_point_on_edge": ref_on_edge, "pole_dist": min(dn if north != "corner" else 9.0, ds if south != "corner" else 9.0),
            "lat_min": lat_min, "lat_max": lat_max, "full": full,
            "lon_lo": 0.0 if full else lo % TWO_PI, "lon_width": TWO_PI if full else hi - lo,
            "max_edge": max(_angle(a, b) for a, b in edges)}
@@ -405,6 +407,10 @@ def gen_face(rng, fam):
         return gen_long_equator_edge(rng)
     if fam == "pole_inside_near_corner":
         return gen_pole_inside_near_corner(rng)
+    if fam == "edge_through_ref":
+        return gen_edge_through_ref(rng)
+    if fam == "ref_point_at_vertex":
+        return gen_edge_through_ref(rng, at_vertex=True)
     n = rng.choice([3, 3, 4, 4, 4, 5, 6, 7, 8])
     spin = rng.uniform(0, TWO_PI)
     f = {"family": fam}
@@ -506,6 +512,34 @@ def gen_long_equator_edge(rng, _depth=0):
     return {"family": "long_equator_edge", "corners": cs}
 
 
+def gen_edge_through_ref(rng, at_vertex=False):
+    """a face one of whose edges passes exactly through REFERENCE_POINT_EQUATOR = (1,0,0), the common far end of the two
+    reference arcs of _pole_point_inside_polygon (untilted = along the equator, or tilted; face on either side); with
+    at_vertex the reference point is a corner instead"""
+    for _ in range(200):
+        tilt = 0.0 if rng.random() < 0.4 else rng.uniform(-1.2, 1.2)
+        dy, dz = int(round(1000 * math.cos(tilt))), int(round(1000 * math.sin(tilt)))
+        K = 1000 * rng.randint(3, 30)
+        a, b = rng.randint(1, 9), rng.randint(1, 9)
+        A, Bv = reduce((K, -a * dy, -a * dz)), reduce((K, b * dy, b * dz))
+        side = rng.choice([1, -1])
+        sv = (0.0, -side * math.sin(tilt), side * math.cos(tilt))          # unit normal of the edge's plane
+        dv = (0.0, math.cos(tilt), math.sin(tilt))
+        k = rng.choice([1, 1, 2])
+        taus = sorted((rng.uniform(-0.25, 0.25) for _ in range(k)), reverse=True)
+        alpha = rng.uniform(0.05, 0.6)
+        extra = []
+        for t in taus:
+            al = alpha * rng.uniform(0.8, 1.0)
+            extra.append(reduce(lattice((math.cos(al), math.sin(al) * sv[1] + t * dv[1], math.sin(al) * sv[2] + t * dv[2]))))
+        cs = ([(1, 0, 0), Bv] + extra) if at_vertex else ([A, Bv] + extra)
+        if not convex_ccw(cs):
+            cs = cs[::-1]
+        if convex_ccw(cs):
+            return {"family": "ref_point_at_vertex" if at_vertex else "edge_through_ref", "corners": cs}
+    return gen_face(rng, "equator")
+
+
 def gen_pole_inside_near_corner(rng):
     """a pole-enclosing face with one corner 2e-4 .. 4.4e-3 rad (0.011 .. 0.25 degrees) from the pole"""
     s = rng.choice([1, -1])
@@ -523,7 +557,7 @@ def gen_pole_inside_near_corner(rng):
 
 
 FAMS = ["generic", "generic", "small", "small", "seam", "equator", "pole_inside", "pole_near", "pole_corner", "latlon_quad", "big",
-        "long_equator_edge", "pole_inside_near_corner"]
+        "long_equator_edge", "pole_inside_near_corner", "edge_through_ref"]
 
 
 def classify(face):
@@ -634,6 +668,7 @@ def judge(ck, face, box, st):
                 "ref_point_inside": orc["ref_point_inside"], "location": orc["location"],
                 "vertex_on_ref_meridian": any(v[1] == 0 and v[0] > 0 for v in face["corners"]),
                 "source": face.get("source", "topology"), "reversed": bool(face.get("reversed")),
+                "ref_point_on_edge": orc["ref_point_on_edge"],
                 "enclosed_pole": "north" if orc["north"] == "inside" else ("south" if orc["south"] == "inside" else "none")}
         if clause == "raises":
             info["exception"] = box[1].split("(")[0]
@@ -693,6 +728,8 @@ def gen_cases(ck):
     faces.append({"family": "design_witness", "corners": [ll(0, -40), ll(0, -60), ll(60, -60), ll(60, -40.5)]})
     for i in range(6):          # directed: present at every seed (all starts, both traversal directions)
         faces.append(gen_long_equator_edge(rng))
+    for i in range(8):          # directed: the equator reference point in the interior of an edge / at a vertex
+        faces.append(gen_edge_through_ref(rng, at_vertex=(i >= 6)))
     for i in range(n):
         faces.append(gen_face(rng, FAMS[i % len(FAMS)]))
     return faces
